@@ -139,6 +139,32 @@ def run(ctx):
             if 0 < n < len(full):
                 st["distinct"].add(r["query"])
             st["hist"]["archives_" + ("ordered" if ob else "unordered")] += 1
+    # ---- "an absent limit or `limit 0` means unlimited": select lists whose only mention of a column sits in a function argument
+    #      (first, second or later), in an operand, behind a minus - the query without LIMIT returns one row per matching entry ----
+    sel_lists = ["concat('f:', name)", "concat_ws('-', name, size)", "coalesce('', name)", "concat(name, ':f')", "upper(name)", "2 * size", "-size", "least(0, size)", "substr(name, 1, 2)",
+                 "concat('a', 'b', name)", "replace('xyz', 'y', ext)", "length(name) + 0", "power(2, hardlinks)", "format_size(size, '%.0')", "concat_ws(name, 'a', 'b')"]
+    ujobs = [(c["tail"], s_) for c in cases[: (6 if ctx.tier == "quick" else 60)] for s_ in sel_lists]
+
+    def uone(job):
+        tail, s_ = job
+        base_rows, r0 = qlib.select(ctx.impl, "name", tail, cwd=ctx.scratch, ncols=1)
+        rows, r = qlib.select(ctx.impl, s_, tail, cwd=ctx.scratch, ncols=1)
+        rows0, _ = qlib.select(ctx.impl, s_, tail + " limit 0", cwd=ctx.scratch, ncols=1)
+        rows2, _ = qlib.select(ctx.impl, s_, tail + " limit 2", cwd=ctx.scratch, ncols=1)
+        return job, base_rows, rows, rows0, rows2, r
+
+    for (tail, s_), base_rows, rows, rows0, rows2, r in pmap(uone, ujobs):
+        st["evaluations"] += 1
+        case = {"query": r["query"]}
+        if base_rows is None or rows is None or rows0 is None or rows2 is None:
+            ctx.violation("impl-violates-spec", "query failed: %r" % r["stderr"][:160], input=case)
+            continue
+        m = len(base_rows)
+        if len(rows) != m or len(rows0) != m or len(rows2) != min(2, m):
+            ctx.violation("impl-violates-spec", "`%s`: %d rows without LIMIT, %d with limit 0, %d with limit 2; %d entries match" % (s_, len(rows), len(rows0), len(rows2), m), input=case)
+        else:
+            st["agreed"] += 1
+            st["hist"]["unlimited_means_every_entry"] += 1
     # ---- grouped queries: LIMIT counts the group rows (repaired finding F67) ----
     gjobs = []
     for c in cases[: (8 if ctx.tier == "quick" else 80)]:
@@ -181,6 +207,6 @@ def run(ctx):
     replay_generic_known(ctx, 'C06')
     ctx.coverage.update(
         evaluations=st["evaluations"], distinct_nontrivial=len(st["distinct"]), traces_validated_against_impl=st["agreed"],
-        rule="harness: random insertion sequences into the real TopN with limits 1-5 vs model.TopN.run; binary: for each generated (tree with ties, query [ordered and unordered, optional WHERE, bfs/dfs]) EVERY N in 1..M+2 and 0: row count = min(N,M), sub-multiset, key sequence = first N keys of the full sort, and literal prefix of the unlimited result (what the theorems predict). grouped queries (group rows are the rows LIMIT counts) under every N likewise. non-trivial = the cut falls strictly inside the result",
+        rule="harness: random insertion sequences into the real TopN with limits 1-5 vs model.TopN.run; binary: for each generated (tree with ties, query [ordered and unordered, optional WHERE, bfs/dfs]) EVERY N in 1..M+2 and 0: row count = min(N,M), sub-multiset, key sequence = first N keys of the full sort, and literal prefix of the unlimited result (what the theorems predict). grouped queries (group rows are the rows LIMIT counts) under every N likewise; select lists that mention a column only inside a function argument or an operand return one row per entry without LIMIT and with `limit 0`. non-trivial = the cut falls strictly inside the result",
         samples=st["samples"], distribution=dict(st["hist"]), exhaustive_over_N=True)
     return ctx.finish(trusted=["unordered prefix relies on the walker visiting entries in the same order in both runs (same process-independent getdents order)"])
